@@ -11,8 +11,10 @@
 package main
 
 import (
+	"bufio"
 	"bytes"
 	"compress/gzip"
+	"context"
 	"encoding/hex"
 	"errors"
 	"fmt"
@@ -51,7 +53,7 @@ type optT struct {
 
 // opT is one step of the handler program (high level: what the handler source says).
 type opT struct {
-	K      string   // H Hc D W B F C P Ws | St Rd Sg Js Ht Dt Nc Sc | Pn
+	K      string   // H Hc D W B F C P Ws | St Rd Sg Js Ht Dt Nc Sc Dr Sf Ym | Pn | Hj (failing Hijack attempt) Cx (request context cancelled)
 	Key    string   `json:",omitempty"`
 	Vals   []string `json:",omitempty"`
 	Code   int      `json:",omitempty"`
@@ -69,8 +71,9 @@ type caseT struct {
 	Prog     []opT
 	// overlap kind: this case is member Idx of Group — requests served at the same time by ONE router and
 	// ONE middleware instance (options of member 0), their handlers advancing one operation at a time in turn
-	Group []caseT `json:",omitempty"`
-	Idx   int     `json:",omitempty"`
+	Group  []caseT `json:",omitempty"`
+	Idx    int     `json:",omitempty"`
+	Poison bool    `json:",omitempty"` // responses on a failing writer were served (unjudged) just before the group
 }
 
 // primT is one primitive call on the ResponseWriter (the model's alphabet).
@@ -136,6 +139,7 @@ type runRes struct {
 	Panic  bool
 	PanicV string
 	Outs   []outT
+	cancel func() // cancels the request context (installed by ctxMW when the program has a Cx op)
 }
 
 // hook lets the dry run know which high-level op is executing.
@@ -253,6 +257,18 @@ func runProg(c *router.Context, prog []opT, res *runRes, hk hook, nw []int) {
 		case "Ym":
 			c.YAML(op.Code, map[string]string{"k": op.S}) //nolint:errcheck
 			pad(0, 0, 0)
+		case "Hj":
+			// an upgrade attempt; the writer underneath has a Hijack method that fails (as wrappers over
+			// HTTP/2 or a recorder do), so the handler goes on over plain HTTP
+			if hj, ok := w.(http.Hijacker); ok {
+				hj.Hijack() //nolint:errcheck
+			}
+		case "Cx":
+			// the request context ends (deadline of an outer middleware, cancellation by the application)
+			// while the connection still works
+			if res.cancel != nil {
+				res.cancel()
+			}
 		case "Pn":
 			if hk != nil {
 				hk.end(op)
@@ -518,10 +534,13 @@ func realRun(k *caseT, withMW bool, nw []int) respT {
 	if len(k.Pre) > 0 {
 		r.Use(outer(k.Pre, nil))
 	}
+	res := &runRes{}
+	if hasOp(k.Prog, "Hj") || hasOp(k.Prog, "Cx") {
+		r.Use(envMW(k.Prog, res))
+	}
 	if withMW {
 		r.Use(compression.New(buildOpts(k.Opt)...))
 	}
-	res := &runRes{}
 	done := make(chan struct{})
 	r.GET(k.Path, func(c *router.Context) {
 		defer close(done) // res is read only after the handler has returned (the client may see the end of a Content-Length body earlier)
@@ -681,6 +700,77 @@ func fetch(k *caseT, res *runRes, done chan struct{}, nw []int) respT {
 	out.CE = resp.Header.Get("Content-Encoding")
 	out.Decoded, out.DecOK = decodeBody(out.CE, raw)
 	return out
+}
+
+// failHijackWriter has a Hijack method that fails; everything else goes to the writer underneath.
+type failHijackWriter struct{ http.ResponseWriter }
+
+func (w failHijackWriter) Hijack() (net.Conn, *bufio.ReadWriter, error) {
+	return nil, nil, errors.New("connection cannot be hijacked")
+}
+func (w failHijackWriter) Flush() {
+	if f, ok := w.ResponseWriter.(http.Flusher); ok {
+		f.Flush()
+	}
+}
+
+func hasOp(prog []opT, k string) bool {
+	for _, o := range prog {
+		if o.K == k {
+			return true
+		}
+	}
+	return false
+}
+
+// envMW prepares what the Hj / Cx operations of the program need, in front of the compression middleware.
+func envMW(prog []opT, res *runRes) router.HandlerFunc {
+	hj, cx := hasOp(prog, "Hj"), hasOp(prog, "Cx")
+	return func(c *router.Context) {
+		if hj {
+			orig := c.Response
+			c.Response = failHijackWriter{orig}
+			defer func() { c.Response = orig }()
+		}
+		if cx {
+			ctx, cancel := context.WithCancel(c.Request.Context())
+			defer cancel()
+			c.Request = c.Request.WithContext(ctx)
+			res.cancel = cancel
+		}
+		c.Next()
+	}
+}
+
+// brokenWriter fails every Write (a client that went away).
+type brokenWriter struct{ h http.Header }
+
+func (b *brokenWriter) Header() http.Header       { return b.h }
+func (b *brokenWriter) WriteHeader(int)           {}
+func (b *brokenWriter) Write([]byte) (int, error) { return 0, errors.New("write: broken pipe") }
+func (b *brokenWriter) Flush()                    {}
+
+// poison serves a few responses whose underlying writer fails while they are being compressed, through the
+// same options as the group that follows. Nothing is judged here: it only perturbs what later requests find
+// (pooled encoders).
+func poison(opt optT) {
+	defer func() { recover() }() //nolint:errcheck
+	r := router.MustNew()
+	r.Use(compression.New(buildOpts(opt)...))
+	r.GET("/x", func(c *router.Context) {
+		w := c.Response
+		w.Header().Set("Content-Type", "text/plain")
+		w.Write(bytes.Repeat([]byte("x"), opt.MinSize+600)) //nolint:errcheck
+		if f, ok := w.(http.Flusher); ok {
+			f.Flush()
+		}
+		w.Write([]byte("more")) //nolint:errcheck
+	})
+	for _, ae := range []string{"gzip", "br", "gzip", "br"} {
+		req, _ := http.NewRequest(http.MethodGet, "http://x/x", nil)
+		req.Header.Set("Accept-Encoding", ae)
+		r.ServeHTTP(&brokenWriter{h: http.Header{}}, req)
+	}
 }
 
 // outer is a middleware in front of the compression middleware that sets response headers
@@ -847,7 +937,7 @@ func modelTag() string {
 func emit(id string, k *caseT, st *hx.Stats) string {
 	if len(k.Group) > 0 {
 		// replay of one member of an overlap group: the whole group runs again, this member's line is printed
-		return emitGroup(id, k.Group, st, k.Idx)[0]
+		return emitGroup(id, k.Group, st, k.Idx, k.Poison)[0]
 	}
 	prims, nw := dryRun(k)
 	plain := realRun(k, false, nw)
@@ -857,7 +947,13 @@ func emit(id string, k *caseT, st *hx.Stats) string {
 
 // emitGroup runs the members overlapped (and each one alone without the middleware) and renders one
 // line per member (only member `only` when only >= 0). Ids are <id>-o<i>.
-func emitGroup(id string, group []caseT, st *hx.Stats, only int) []string {
+func emitGroup(id string, group []caseT, st *hx.Stats, only int, poisoned bool) []string {
+	if poisoned {
+		poison(group[0].Opt)
+		if st != nil {
+			st.Count("overlap_group_after_failed_writes")
+		}
+	}
 	prims := make([][]primT, len(group))
 	nws := make([][]int, len(group))
 	plains := make([]respT, len(group))
@@ -876,7 +972,7 @@ func emitGroup(id string, group []caseT, st *hx.Stats, only int) []string {
 		if only < 0 {
 			mid = fmt.Sprintf("%s-o%d", id, i)
 		}
-		full := &caseT{Group: group, Idx: i}
+		full := &caseT{Group: group, Idx: i, Poison: poisoned}
 		out = append(out, render(mid, &group[i], prims[i], plains[i], withs[i], st, full))
 		if st != nil {
 			st.Count("overlap_member")
@@ -1020,14 +1116,14 @@ func main() {
 			fmt.Fprintln(w, emit(fmt.Sprintf("c15-fix-%d", i), k, st))
 		}
 		for i, g := range fixedGroups() {
-			for _, line := range emitGroup(fmt.Sprintf("c15-fixg-%d", i), g, st, -1) {
+			for _, line := range emitGroup(fmt.Sprintf("c15-fixg-%d", i), g, st, -1, i%2 == 1) {
 				fmt.Fprintln(w, line)
 			}
 		}
 		for i := 0; i < a.N; i++ {
 			if os.Getenv("C15_MODEL") != "asis" && i%25 == 7 {
 				// overlap kind: 2–3 requests at the same time through one middleware instance
-				for _, line := range emitGroup(fmt.Sprintf("c15-%d-%d", a.Seed, i), genGroup(r), st, -1) {
+				for _, line := range emitGroup(fmt.Sprintf("c15-%d-%d", a.Seed, i), genGroup(r), st, -1, r.Chance(1, 2)) {
 					fmt.Fprintln(w, line)
 				}
 				continue
